@@ -20,3 +20,10 @@ impl BitSet {
         ensures r == self@.contains(value),
     { unimplemented!() }
 }
+
+impl Clone for BitSet {
+    #[verifier::external_body]
+    fn clone(&self) -> (r: BitSet)
+        ensures r@ == self@,
+    { unimplemented!() }
+}
